@@ -1,6 +1,8 @@
 # Copyright 2020 National Technology & Engineering Solutions of Sandia, LLC (NTESS).
 # Under the terms of Contract DE-NA0003525 with NTESS, the U.S. Government retains
 # certain rights in this software.
+import copy
+import operator
 import warnings
 from collections import OrderedDict
 
@@ -190,6 +192,15 @@ class ReadoutSubcircuit(RelativeFrequencySubcircuit):
         self._readouts.append(readout)
         self._relative_frequencies[readout.as_int] += 1
 
+    def _without_readouts(self):
+        """(internal) A copy of this subcircuit that has accepted no readout."""
+        import numpy
+
+        new = copy.copy(self)
+        new._readouts = []
+        new._relative_frequencies = numpy.zeros_like(self._relative_frequencies)
+        return new
+
     @property
     def readouts(self):
         """An indexable, iterable view of :class:`Readout` objects, containing the
@@ -305,6 +316,9 @@ class OutputParser(TraceVisitor):
         nxt = next(self.data)
         if isinstance(nxt, str):
             nxt = int(nxt[::-1], 2)
+        else:
+            # A plain integer, whatever integer-like type the data came in
+            nxt = operator.index(nxt)
         mr = Readout(nxt, self.readout_index)
         subcircuit.accept_readout(mr)
         self.res.append(mr)
